@@ -133,6 +133,8 @@ func (c *Cluster) nonBabblingStep(s *Step) {
 		if len(c.vs.latest()) < 3 || !n.inLatestModelSet() {
 			return
 		}
+		c.nesting++
+		defer func() { c.nesting-- }()
 		c.exec(&Step{Op: "leave", A: n.idx})
 		for _, m := range c.liveBabbling() {
 			if m != n && !m.silent {
